@@ -93,6 +93,7 @@ class Interp:
         self.attached = set()          # loop specs that attached on this path
         self.inline_only = False
         self.mbqi_fallback_ms = 0
+        self.feas_rlimit = int(os.environ.get('PYVC_FEAS_RLIMIT', '100000'))
 
     # ------------------------------------------------------------------ solver
     def assume(self, f):
@@ -116,6 +117,8 @@ class Interp:
         if extra is not None:
             self.solver.pop()
         self.solver_time += time.time() - t0
+        if os.environ.get("PYVC_TRACE") and time.time() - t0 > 1:
+            print(f"[slow query {time.time()-t0:.1f}s -> {r}] line {self.cur_line} extra={str(extra)[:200]}")
         return SAT if r == z3.sat else UNSAT if r == z3.unsat else UNKNOWN
 
     def decide(self, options):
@@ -126,12 +129,18 @@ class Interp:
             self.assume(options[d])
             return d
         feas = []
-        for k, c in enumerate(options):
-            c = z3.simplify(c)
-            if z3.is_false(c):
-                continue
-            if z3.is_true(c) or self.check(c) != UNSAT:
-                feas.append(k)
+        # feasibility pruning only: 'unknown' keeps the branch (sound), so a small budget suffices; the budget is a z3 resource
+        # limit (deterministic), not wall-clock, so verdicts do not flip when the machine is loaded
+        self.solver.set("rlimit", self.feas_rlimit)
+        try:
+            for k, c in enumerate(options):
+                c = z3.simplify(c)
+                if z3.is_false(c):
+                    continue
+                if z3.is_true(c) or self.check(c) != UNSAT:
+                    feas.append(k)
+        finally:
+            self.solver.set("rlimit", 0)
         if not feas:
             raise PathEnd()
         base = list(self.prefix)
